@@ -17,6 +17,7 @@ n-qubit controlled gate
 """
 from collections import namedtuple
 import numpy as np
+from scipy.linalg import schur
 import qiskit
 from qiskit.circuit import Gate
 from qiskit import QuantumCircuit, QuantumRegister
@@ -116,7 +117,10 @@ class Ldmcu(Gate):
     def _gate_u(agate, coef, signal):
         param = 1 / np.abs(coef)
 
-        values, vectors = np.linalg.eig(agate)
+        # The Schur form of a normal matrix is diagonal and its basis is unitary,
+        # even when the eigenvalues are (nearly) degenerate.
+        schur_form, vectors = schur(agate, output="complex")
+        values = schur_form.diagonal()
         gate = np.power(values[0] + 0j, param) * vectors[:, [0]] @ vectors[:, [0]].conj().T
         gate = (
                 gate
